@@ -22,7 +22,7 @@ try:
         r = subprocess.run([os.path.join(V, "check"), "--all"], cwd=V, env=dict(os.environ, CW_REPO=repo, CW_EVIDENCE_DIR=ev),
                            stdout=subprocess.PIPE, stderr=subprocess.STDOUT, text=True)
         fired = sorted(set(re.findall(r"^VIOLATION property=(C\d+)", r.stdout, re.M)))
-        rules = sorted(set(re.findall(r"^--- (C\d+ R[\d.]+) \[", r.stdout, re.M)))
+        rules = sorted(set(re.findall(r"^--- (C\d+ \S+) \[", r.stdout, re.M)))
         if "first_evaluation" not in meta:
             meta["first_evaluation"] = {"checks_fired": meta.get("checks_fired"), "rules_fired": meta.get("rules_fired"),
                                         "detected_by_own_property": meta.get("detected_by_own_property")}
